@@ -155,3 +155,17 @@ Proof.
   rewrite <- (feq_trans_r o n x H). destruct (feq x o) eqn:F; cbn; [|reflexivity].
   rewrite (iset_mem_feq x o s F). symmetry. exact E.
 Qed.
+
+(* ChannelState.replaceUser with a case-only rename keeps every membership / status answer (remove-then-add order).
+   With the two statements swapped (add, then remove) the user would vanish: see [swapped_order_loses]. *)
+Lemma replaceUser_caseonly o n c x : feq o n = true ->
+  iset_mem x (c_users (replaceUser o n c)) = iset_mem x (c_users c)
+  /\ iset_mem x (c_ops (replaceUser o n c)) = iset_mem x (c_ops c)
+  /\ iset_mem x (c_halfops (replaceUser o n c)) = iset_mem x (c_halfops c)
+  /\ iset_mem x (c_voices (replaceUser o n c)) = iset_mem x (c_voices c).
+Proof.
+  intro H. rewrite replaceUser_users, replaceUser_ops, replaceUser_halfops, replaceUser_voices.
+  rewrite !(renamed_caseonly o n x _ H). repeat split.
+Qed.
+Lemma swapped_order_loses o n s : iset_mem o (iset_discard o (iset_add n s)) = false.
+Proof. rewrite iset_mem_discard, feq_refl. reflexivity. Qed.
